@@ -7,10 +7,11 @@ PID = "C13"
 PROPS_MODULE = "Props.C13"
 THEOREMS = ["series_dispatch_correct", "plot_dispatch_correct", "csv_dispatch_correct", "plot_labels", "tables_same_keys",
             "linspace_endpoints"]
-EXTRA_PROPS = {"Props.C13b": ["series_column_values", "series_column_order", "time_series_pointwise", "time_series_example", "series_misaligned_without_it", "plot_curves_pointwise", "plot_curves_defined", "plot_curves_example"]}
+EXTRA_PROPS = {"Props.C13b": ["series_column_values", "series_column_order", "time_series_pointwise", "time_series_example", "series_misaligned_without_it", "plot_curves_pointwise", "plot_curves_defined", "plot_curves_example",
+                              "dataset_order_spec", "dataset_order_keyerror", "plot_display_all_spec", "dataset_order_example", "order_literals"]}
 REQUIRED = ["Props/C13.v", "Props/C13b.v", "Model/Series.v", "Model/SeriesAsm.v"]
 TRANSLATORS = ["tr_pure", "tr_tables"]
-SHAPE_KEYS = ["decay_time_series", "AbstractInventory::plot", "InventoryHP::plot", "decay_graph", "Inventory::decay", "InventoryHP::decay"]
+SHAPE_KEYS = ["decay_time_series", "sort_list_according_to_dataset", "AbstractInventory::plot", "InventoryHP::plot", "decay_graph", "Inventory::decay", "InventoryHP::decay"]
 PARTIAL = ["the assembly of the series table from separate decays is PROVED pointwise for every list of times and every read-out (Props/C13b.v, model tied by "
            "source text + the `assemble` evaluation inside Coq per case); that data_map really is the separate decays (map(self.decay, ...)), the grids for log scale, "
            "curve selection and limits are decided on the implementation (bit-identical comparison for all 47 read-out kinds x {linear, log}); "
